@@ -153,6 +153,8 @@ def gen_c12_case(rng: random.Random):
                 vals[aff[0]] = -3.0
             else:
                 vals = {}
+        if vals and all(v == 0.0 for v in vals.values()) and case["bad"] is None:
+            case["bad"] = "empty"          # an impact made only of zeros is an empty impact
         case["series"] = [[list(k), v] for k, v in vals.items()]
     return case
 
